@@ -24,6 +24,10 @@ func (s *Server) VerifSendTransaction(t Transaction) error { return s.sendTransa
 
 func (s *Server) VerifProcessOutbox() { s.processOutbox() }
 
+// VerifDispatch is the body of the processOutbox loop (which never terminates and therefore cannot run inside a
+// testing/synctest bubble); it must be called from one goroutine only.
+func (s *Server) VerifDispatch(t Transaction) <-chan struct{} { return s.dispatch(t) }
+
 func (s *Server) VerifKeepaliveHandler(ctx context.Context) { s.keepaliveHandler(ctx) }
 
 type (
